@@ -5,11 +5,13 @@ CONSTANTS
   RNames = {"r1"}
   PNames = {"p1", "p2"}
   MaxGen = 2
+  MaxPGen = 1
   Repairs = {"pending-expiry"}
   MaxNow = 3
   RParams <- RP_quick
   Cfgs <- Cfg_quick
   NodeSets <- NS_both
+VIEW View
 INVARIANT TypeOK
 INVARIANT NoLostWakeup
 INVARIANT PhaseShape
